@@ -21,15 +21,31 @@ POFF = r'^(x|__begin\d+)(?:\.|->)offset$'
 ALEN = r'(rs\.aligned_length\(\)|this->m_alignment)'
 
 
+def rs_name(f):
+    """the function's range-split local (the rules speak about *that* object, whatever it is called)"""
+    n = [d['name'] for d in f.decls if d['kind'] == 'local' and not d['name'].startswith('__') and re.search(r'(^|::)(range_split\w*|RangeSplit)$', d.get('type') or '')]
+    if len(set(n)) != 1:
+        raise AnalysisBroken('C16: %s has %d range-split locals (expected 1)' % (f.nname, len(set(n))))
+    return n[0]
+
+
+def norm(f, s):
+    return re.sub(r'(?<![\w.>])%s(?=\.)' % re.escape(rs_name(f)), 'rs', s or '')
+
+
 def expand(f, i, depth=0):
+    return norm(f, _expand(f, i, depth))
+
+
+def _expand(f, i, depth=0):
     s = f.show(i)
     if depth > 3:
         return s
     for e in [f.x(j) for j in f.subtree(i)]:
         if e is not None and e['k'] == 'ref' and f.decls[e['decl']]['kind'] == 'local':
             vi = f.value_init(e['decl'])
-            if vi is not None and vi >= 0 and f.decls[e['decl']]['name'] not in ('rs',):
-                s = re.sub(r'(?<![\w>\.])%s(?!\w)' % re.escape(e['name']), expand(f, vi, depth + 1), s)
+            if vi is not None and vi >= 0 and f.decls[e['decl']]['name'] != rs_name(f):
+                s = re.sub(r'(?<![\w>\.])%s(?!\w)' % re.escape(e['name']), _expand(f, vi, depth + 1).replace('\\', '\\\\'), s)
     return s
 
 
@@ -43,11 +59,11 @@ def aligned(R, prog):
             continue
         G = K.build_f(R, prog, f)
         slc = lambda ev: ev.kind == 'call' and (ev.callee() or '').endswith('::slice') and len(ev.e['args']) == 3
-        head = lambda ev: slc(ev) and re.match(r'^%s$' % ALEN, ev.arg_show(0) or '') and ev.arg_show(1) == '0'
-        tail = lambda ev: slc(ev) and re.match(r'^%s$' % ALEN, ev.arg_show(0) or '') and re.match(r'^\(\w+\.sum\(\) - this->m_alignment\)$', ev.arg_show(1) or '')
+        head = lambda ev: slc(ev) and re.match(r'^%s$' % ALEN, norm(f, ev.arg_show(0))) and ev.arg_show(1) == '0'
+        tail = lambda ev: slc(ev) and re.match(r'^%s$' % ALEN, norm(f, ev.arg_show(0))) and re.match(r'^\(\w+\.sum\(\) - this->m_alignment\)$', ev.arg_show(1) or '')
         other = lambda ev: slc(ev) and not head(ev) and not tail(ev)
         seen = an.SeenTracker([('view@head', head, ('view@tail',)), ('view@tail', tail, ('view@head',)), ('view@other', other, ('view@head', 'view@tail'))])
-        res = an.run(G, [seen, an.GuardTracker(lambda k: 'is_aligned' in k or 'm_align_memory' in k or 'iov_align_check' in k or 'rs.' in k)])
+        res = an.run(G, [seen, an.GuardTracker(lambda k: 'is_aligned' in k or 'm_align_memory' in k or 'iov_align_check' in k)])
         params = [f.decls[d]['name'] for d in f.j['params']]
         short = f.nname.split('::')[-1]
         for nid, idx, ev, states in res.at(lambda ev: ev.kind == 'call' and ev.e in fwd):
@@ -59,8 +75,8 @@ def aligned(R, prog):
             if all(a in params for a in args):
                 n_fast += 1
                 key = '%s.K6:AlignedFileAdaptor::%s:fast-path(%s)-requires-aligned-request' % (P, short, op)
-                bad = [st for st in states if not ('G:rs.is_aligned()=T' in st and ('G:this->m_align_memory=F' in st or
-                       any(re.match(r'^G:(rs\.is_aligned_ptr\(\w+\)|this->iov_align_check\(\w+\))=T$', k) for k in st)))]
+                bad = [st for st in states if not ('G:rs.is_aligned()=T' in [norm(f, k) for k in st] and ('G:this->m_align_memory=F' in st or
+                       any(re.match(r'^G:(rs\.is_aligned_ptr\(\w+\)|this->iov_align_check\(\w+\))=T$', norm(f, k)) for k in st)))]
                 (R.violated if bad else R.held)(P + '.K6', key, f.id, ev.loc(), 'caller\'s own (buf,count,offset) forwarded only if the request (and, if asked, the memory) is aligned' +
                                                   ('; reaching state %s' % K.fmt_state(bad[0]) if bad else ''))
                 continue
@@ -91,7 +107,7 @@ def aligned(R, prog):
                     v = m.group(1)
                     # an IOVector built on the adaptor's allocator and grown by aligned_length ...
                     grown = any(e['k'] == 'call' and strip_targs(e.get('fn') or '').endswith('::push_back') and f.path(e['recv']) == v and
-                                re.match(r'^%s$' % ALEN, f.show(e['args'][0])) for e in f.exprs) and \
+                                re.match(r'^%s$' % ALEN, norm(f, f.show(e['args'][0]))) for e in f.exprs) and \
                         any(e['k'] == 'declstmt' and any(f.decls[x['decl']]['name'] == v and x.get('init') is not None and 'm_allocator' in f.show(x['init']) for x in e['vars']) for e in f.exprs)
                     # ... or a view most recently sliced out of it at the displacement that belongs to this file offset
                     want = 'S:view@head' if 'aligned_begin_offset()' in off and 'm_alignment' not in off else 'S:view@tail' if re.search(r'aligned_end_offset\(\) - this->m_alignment', off) else None
@@ -137,7 +153,7 @@ def composite(R, prog):
                 vi = ev.f.value_init(t['decl'])
                 if vi is not None and vi >= 0:
                     third = ev.f.show(vi)
-            return (a[0] == buf and re.match(PLEN, a[1] or '') and (re.match(POFF, third or '') or re.match(r'^rs\.multiply\(.*, ' + POFF[1:-1] + r'\)$', third or '')) and
+            return (a[0] == buf and re.match(PLEN, a[1] or '') and (re.match(POFF, third or '') or re.match(r'^rs\.multiply\(.*, ' + POFF[1:-1] + r'\)$', norm(ev.f, third))) and
                     re.match(PLEN, a[1]).group(1) == re.search(POFF[1:-1], third).group(1) and 'S:called' not in st)
         K.check_at(R, P + '.K10', G, res, sub, part_args,
                    key_fn=lambda ev, cls=cls: '%s.K10:%s::pio:part-forwarded-with-its-own-extent' % (P, cls),
@@ -152,7 +168,7 @@ def composite(R, prog):
         K.check_at(R, P + '.K6', G, res, lambda ev: ev.kind == 'return' and ev.depth == 0 and ev.f.const(ev.e['sub']) == -1,
                    require=lambda st, ev: True, key_fn=lambda ev, cls=cls: '%s.K6:%s::pio:error-exits' % (P, cls), describe=lambda ev: 'error exit', min_sites=2)
         # a short part is an error
-        K.check_at(R, P + '.K6', G, res, adv, require=lambda st, ev: any(re.match(r'^G:(ret|\[.*\]) < ' + PLEN[1:-1] + '=F$', k) for k in st),
+        K.check_at(R, P + '.K6', G, res, adv, require=lambda st, ev: any(re.match(r'^G:(\w+|\[.*\]) < ' + PLEN[1:-1] + '=F$', k) for k in st),
                    key_fn=lambda ev, cls=cls: '%s.K6:%s::pio:short-part-is-an-error' % (P, cls),
                    describe=lambda ev: 'the loop continues only if the sub-file transferred the whole part', min_sites=1)
 
